@@ -122,13 +122,15 @@ def replay(path):
 MANIFEST = dict(
     category="proof",
     technique="thin Lean 4 theorem (the generator's requests and value are a function of schemas and earlier answers) + "
-              "cross-process differential runs under several PYTHONHASHSEED values",
+              "cross-process differential runs under several PYTHONHASHSEED values"
+              " + entropy-source translator",
     text="In the model generation is a function of the schemas and the draw answers: gen_no_lookahead (answers are read "
          "left to right, a result depends only on the answers consumed), gen_log_independent (the request log is a "
          "by-product), genMany_no_lookahead and gen_prefix_determined for sequences of fakes; with 'the Mersenne Twister "
          "is a function of seed and request sequence' (trusted) that is the property. What decides C17 for the code is run "
          "every time: the same schema sequences are faked after set_seed(k) — int, str, bytes seeds — in fresh "
          "interpreters with 4 (quick) / 8 (thorough) hash seeds and twice within a process, and compared."
-         " Source pins: the normalised text of every anchor file is compared with the text the model was last validated against; a changed file is a broken obligation (no-failing-input-found unless the search finds an input).",
+         " Source pins: the normalised text of every anchor file is compared with the text the model was last validated against; a changed file is a broken obligation (no-failing-input-found unless the search finds an input)."
+         " Translator: every call of the random module, other generator, clock / uuid read, hash / id and ordered use of a set in the source (Gen/Entropy.lean) is decided to be one of the listed ones (entropy_sources_listed; K1's site is k1_site_present).",
     note="Partial: NoNegClass (K1: candidates of a negated class are ordered by set iteration, i.e. by PYTHONHASHSEED). The "
          "theorem is thin by nature; the runtime behaviour (hash randomisation) cannot be exhibited by the model.")
